@@ -1,7 +1,8 @@
 /-
   Framing of `pytorch_stft_frame_computer` (`/repo/src/pydrobert/speech/torch.py`):
-  symmetric padding by *flipped slices* `cat([sig[:pl].flip(0), sig, sig[N-pr:].flip(0)])`, then
-  `as_strided((num_frames, L), (S, 1))`.  (The port's segment walk is `Model/Walk.lean`'s `runTorch`.)
+  symmetric padding by gathering the periodic symmetric extension
+  (`idx = arange(-pl, N + pr).remainder(2N); idx = where(idx < N, idx, 2N - 1 - idx); sig[idx]` — the same
+  index map as `np.pad(…, 'symmetric')`, i.e. `symIdx`), then `as_strided((num_frames, L), (S, 1))`.  (The port's segment walk is `Model/Walk.lean`'s `runTorch`.)
 -/
 import PdsVerif.Model.Stft
 namespace PdsVerif.Model.TorchStft
@@ -17,15 +18,15 @@ def asStrided {α} (c : Cfg) (storage : List α) (nf : Nat) : Option (List (List
 /-- number of columns of the result -/
 def numCols (numFilts : Nat) (includeEnergy : Bool) : Nat := numFilts + (if includeEnergy then 1 else 0)
 
-def frames {α} (c : Cfg) (x : List α) : Option (List (List α)) :=
+def frames {α} [Inhabited α] (c : Cfg) (x : List α) : Option (List (List α)) :=
   let N := x.length
   if N < c.L / 2 + 1 then some []
   else
     let pl := padL c
     let nf := (N + c.S / 2) / c.S
     let pr := ((((nf : Int) - 1) * c.S - pl + c.L) - N).toNat
-    -- `sig[:pl].flip(0)`, `sig[N - pr:].flip(0)`  (a negative start `N - pr < 0` would wrap: out of scope, `N ≥ L`)
-    let padded := (x.take pl).reverse ++ x ++ (x.drop (N - pr)).reverse
+    -- `if pad_left or pad_right: sig = sig[idx]` with `idx` the symmetric-extension index map
+    let padded := if pl = 0 ∧ pr = 0 then x else symPad x pl pr
     asStrided c padded nf
 
 end PdsVerif.Model.TorchStft
